@@ -58,6 +58,8 @@ def unit(u, res):
         return unit_lex(u, res)
     if kind == 'display':
         return unit_display(u, res)
+    if kind == 'e2e':
+        return unit_lex(u, res, entry='eval')
     raise ValueError(kind)
 
 
@@ -152,7 +154,7 @@ def c13_run(C, seq):
 
 
 # ---------------------------------------------------------------- tokenizer on free characters
-def unit_lex(u, res):
+def unit_lex(u, res, entry='tokenize'):
     _, templates, ofc, timeout_ms, seed = u
     C = ctx(ofc)
     pr = checklib.Prover(res, timeout_ms, CVC5_RATE[0], random.Random(zlib.crc32(repr(u).encode()) ^ checklib.env_seed()))
@@ -173,10 +175,10 @@ def unit_lex(u, res):
                 chars.append(mkchar(ch))
         if klass is not None:
             cons.append(first_char_class(free[0], klass))
-        name = 'tokenize %r%s' % (tmpl.replace('\x00', '?'), '' if klass is None else ' [first char class %d]' % klass)
+        name = '%s %r%s' % (entry, tmpl.replace('\x00', '?'), '' if klass is None else ' [first char class %d]' % klass)
         t0 = time.time()
         try:
-            ex, outs = C.run('tokenize', lambda st: [ref_to(st, SStr(chars))], pc=cons)
+            ex, outs = C.run(entry, lambda st: [ref_to(st, SStr(chars))], pc=cons)
         except Unsupported as x:
             res.inconclusive.append('%s: unsupported: %s @ %s' % (name, x, getattr(x, 'where', None)))
             continue
@@ -336,6 +338,14 @@ def lex_templates(tier):
     return out + structured
 
 
+def e2e_templates(tier):
+    out = ['\x00', '\x00\x00', '1\x002', '\x001', 'a\x00', '(\x00)', '1\x00\x002', 'shl(1,\x00\x00)', 'len("\x00\x00")', 'str::substring("\x00\x00",1)', '"\x00"+"\x00"',
+           '-\x00', 'max(\x00,2)', 'a=\x00;a', '1\x00(2)', '\x00(\x00']
+    if tier != 'quick':
+        out += [('\x00\x00\x00', k) for k in range(len(FIRST_CLASSES))] + ['1\x00\x00\x002', 'if(\x00,\x00,\x00)', 'math::abs(-\x00\x00)', '(\x00,\x00;\x00)', 'a\x00=\x00\x00']
+    return out
+
+
 def main():
     t0 = time.time()
     tier = checklib.env_tier()
@@ -365,6 +375,9 @@ def main():
         tmpls = lex_templates(tier)
         for t in tmpls:
             units.append(('lex', [t], ofc, timeout_ms, seed))
+        # whole pipeline: eval(string) = tokenize ; build tree ; evaluate in a fresh HashMapContext, with free characters in the source
+        for t in e2e_templates(tier):
+            units.append(('e2e', [t], ofc, timeout_ms, seed))
         for sh in ['I', 'F', 'B', 'S2', 'E', 'T0', 'T2', 'T[S1,B,F]']:
             units.append(('display', ('value', sh), ofc, timeout_ms, seed))
         nerr = len(ctx(ofc).meta.enums['EvalexprError'])
@@ -394,10 +407,10 @@ def main():
             kr.inconclusive.append('Kani did not verify every kernel harness: %s' % {k: kres.get(k) for k in ('exit', 'verified', 'failed', 'total', 'failed_checks', 'vacuous_cover')})
         results.append(kr)
     checklib.finish(PID, results, t0=t0, replay_fn=replay_ce, extra=dict(kani=kres),
-                    rule='units: %d builtins x %d argument shapes; %d operator variants x argument vectors of length 0..3 x 3 context kinds; all %d token-kind sequences <= %d '
+                    rule='units: whole-pipeline eval(source) on %d templates with free characters; %d builtins x %d argument shapes; %d operator variants x argument vectors of length 0..3 x 3 context kinds; all %d token-kind sequences <= %d '
                          'tokens through the tree builder; tokenizer on %d templates with up to %d completely free characters; Display of every Value shape / error variant / '
                          'operator / token; each with overflow checks on and off; an obligation is one path end: either not a panic point, or a panic point proved infeasible'
-                         % (len(c10.BUILTINS), len(shapes), len(OPERATORS), len(seqs), N, len(lex_templates(tier)), 3 if tier == 'quick' else 4),
+                         % (len(e2e_templates(tier)), len(c10.BUILTINS), len(shapes), len(OPERATORS), len(seqs), N, len(lex_templates(tier)), 3 if tier == 'quick' else 4),
                     explanation='bounded symbolic verification of panic-freedom: every MIR assert / unreachable / explicit panic and every panicking branch of a std model '
                                 '(unwrap, index, slice boundary, shift and abs under inherited overflow checks, swap_remove) reached on a path yields the query PC, which '
                                 'must be unsat; integer kernels are additionally checked on compiled code by Kani (kani/)',
